@@ -179,6 +179,8 @@ FaultReply(ch, f) ==
     [] f = "altcid"    -> Sig(key, [m EXCEPT ![1] = 0], e[3], TRUE)
     [] f = "altlock"   -> Sig(key, [m EXCEPT ![3] = <<0, 0>>], e[3], TRUE)
     [] f = "wrongtype" -> Sig(key, MsgOf(OtherType(e[1]), ch, e[2]), e[3], TRUE)
+    [] f = "oldstate"  -> IF e[2] > 0 THEN Sig(key, MsgOf(e[1], ch, e[2] - 1), e[3], TRUE)     \* right type, PREVIOUS state
+                                      ELSE Sig(key, [m EXCEPT ![5] = AltNum(m[5])], e[3], TRUE)
     [] f = "otherkey"  -> Sig("other", m, e[3], TRUE)
     [] f = "wrongbf"   -> Sig(key, m, NoBf, TRUE)
     [] f = "identity"  -> Sig(key, m, e[3], FALSE)
@@ -392,6 +394,14 @@ ClosedOnUnrevoked ==
   \A ch \in Channels : closed[ch].has =>
       /\ LockOf(ch, closed[ch].k) \notin revealed
       /\ closed[ch].cb = Bal(ch, closed[ch].k)[1] /\ closed[ch].mb = Bal(ch, closed[ch].k)[2]
+
+(* merchant-side exposure: at any time at most two closing signatures per channel are on        *)
+(* unrevoked states, and they are on consecutive states (the one being replaced and its        *)
+(* successor) - every older closing signature can be punished with a revealed secret           *)
+UnrevokedClosable(ch) ==
+  {i \in 0..(Len(led[ch]) - 1) : [key |-> MerOf(ch), msg |-> CloseMsg(ch, i)] \in issued /\ LockOf(ch, i) \notin revealed}
+MerchantExposureBounded ==
+  \A ch \in Channels : \A i, j \in UnrevokedClosable(ch) : i - j \in {-1, 0, 1}
 
 (* Action properties *)
 (* C03: a refused reply leaves the customer state unchanged; a revocation secret is   *)
